@@ -69,6 +69,8 @@ def wire_event(e):
 #          | ['thm', title_inlines|None, blocks]
 # inline : ['t', text] | ['label', l] | ['ref', l, uid] | ['pageref', l, uid] | ['grp', inlines]
 
+SEC_NAMES = {1: 'section', 2: 'subsection', 3: 'subsubsection', 4: 'paragraph', 5: 'subparagraph'}
+DEFAULT_SECNUMDEPTH = 2      # plasTeX's document/sec-num-depth default
 WORDS = ['alpha', 'beta', 'gamma', 'delta', 'text', 'more', 'words', 'here', 'see', 'and']
 MATH = ['x', 'y+z', 'a^2', 'b_1', '\\alpha', 'n']
 
@@ -95,7 +97,7 @@ def render_blocks(blocks):
     for b in blocks:
         k = b[0]
         if k == 'sec':
-            out.append('\\%s%s{%s}%s\n' % ('section' if b[1] == 1 else 'subsection', '*' if b[2] else '', render_inlines(b[3]),
+            out.append('\\%s%s{%s}%s\n' % (SEC_NAMES[b[1]], '*' if b[2] else '', render_inlines(b[3]),
                                            '\\label{%s}' % b[4] if b[4] is not None else ''))
         elif k == 'par':
             out.append(render_inlines(b[1]) + '\n\n')
@@ -123,11 +125,14 @@ def render_doc(ast):
     return '\\documentclass{article}\\newtheorem{thm}{Theorem}\\begin{document}\n' + render_blocks(ast) + '\\end{document}\n'
 
 
-def doc_events(ast):
+def doc_events(ast, secnumdepth=None):
     """the event history LaTeX's rules give for the document, in source order; objects are numbered in document order.
+    secnumdepth: the document's sec-num-depth (None = default): a sectioning command deeper than it prints no number and steps
+    no counter, but is still the object a label directly after it names.
     returns (events, nobjects, ref uids in document order, wild = objects whose printed number is not predicted)"""
     ev = []
-    st = dict(o=0, section=0, subsection=0, equation=0, figure=0, table=0, thm=0, depth=0, enum=[0, 0, 0, 0, 0, 0])
+    snd = DEFAULT_SECNUMDEPTH if secnumdepth is None else secnumdepth
+    st = dict(o=0, sec=[0, 0, 0, 0, 0, 0], equation=0, figure=0, table=0, thm=0, depth=0, enum=[0, 0, 0, 0, 0, 0])
     uids = []
     wild = []
 
@@ -154,14 +159,13 @@ def doc_events(ast):
             if k == 'sec':
                 o = new_obj()
                 num = None
-                if not b[2]:
-                    if b[1] == 1:
-                        st['section'] += 1
-                        st['subsection'] = 0
-                        num = '%d' % st['section']
-                    else:
-                        st['subsection'] += 1
-                        num = '%d.%d' % (st['section'], st['subsection'])
+                if not b[2] and b[1] <= snd:
+                    st['sec'][b[1]] += 1
+                    for lv in range(b[1] + 1, 6):
+                        st['sec'][lv] = 0
+                    num = '.'.join('%d' % st['sec'][lv] for lv in range(1, b[1] + 1))
+                    if b[1] >= 3:
+                        wild.append(o)      # the format of the deep counters is C08's subject
                 ev.append(['cur', o])
                 inlines(b[3])
                 if num is not None:
@@ -302,13 +306,20 @@ class LabelSource(object):
         self.n = 0
         self.dup = dup
         self.used = []
+        self.twin = None
 
     def fresh(self):
         if self.dup and self.used and self.rng.random() < 0.35:
             return self.rng.choice(self.used)
+        if self.twin is not None:
+            l, self.twin = self.twin, None       # the label that differs from the previous one only by blank vs hyphen
+            self.used.append(l)
+            return l
         self.n += 1
-        style = self.rng.choice(['l%d', 'sec:%d', 'eq-%d', 'L%d', 'x.%d', 'a%d'])
+        style = self.rng.choice(['l%d', 'sec:%d', 'eq-%d', 'L%d', 'x.%d', 'a%d', 'eq:mass energy %d', 'thm main%d', 'a b c%d'])
         l = style % self.n
+        if ' ' in l and self.rng.random() < 0.5:
+            self.twin = l.replace(' ', '-')
         self.used.append(l)
         return l
 
@@ -341,7 +352,7 @@ def gen_blocks(rng, ls, n, depth, ill, top):
                 after = ls.fresh()
             elif r < 0.65:
                 title += [['label', ls.fresh()]]
-            out.append(['sec', rng.choice([1, 1, 2]), starred, title, after])
+            out.append(['sec', rng.choice([1, 1, 2, 2, 3, 3, 4, 5]), starred, title, after])
             if rng.random() < 0.5:
                 out.append(['par', [text(rng)]])
         elif k == 'par':
@@ -415,7 +426,7 @@ def gen_doc_case(rng, size, nvariants, ill=False, dup=False, flavour='doc'):
         d = copy.deepcopy(ast)
         place_refs(rng, d, reqs)
         docs.append(d)
-    return dict(kind='doc', flavour=flavour, docs=docs)
+    return dict(kind='doc', flavour=flavour, docs=docs, depth=rng.choice([None, None, None, 0, 1, 2, 3, 4, 5]))
 
 
 def small_docs(two_refs):
@@ -424,6 +435,10 @@ def small_docs(two_refs):
         # slot: list that receives references written inside the object
         if kind == 'sec':
             return [['sec', 1, False, [['t', 'T']] + slot, l]]
+        if kind == 'sub3':
+            return [['sec', 3, False, [['t', 'T']] + slot, l]]
+        if kind == 'para':
+            return [['sec', 4, False, [['t', 'T']] + slot, l]]
         if kind == 'sect':
             return [['sec', 2, False, [['t', 'T'], ['label', l]] + slot, None]]
         if kind == 'eq':
@@ -439,22 +454,28 @@ def small_docs(two_refs):
         if kind == 'thm':
             return [['thm', None, [['par', [['t', 'B'], ['label', l]] + slot]]]]
         raise ValueError(kind)
-    kinds = ['sec', 'sect', 'eq', 'eqn', 'item', 'fig', 'tab', 'thm']
-    targets = ['a', 'b', 'zz']
+    kinds = ['sec', 'sect', 'sub3', 'para', 'eq', 'eqn', 'item', 'fig', 'tab', 'thm']
     nslots = 5
-    choices = list(itertools.product(targets, range(nslots)))
+    choices = list(itertools.product(range(3), range(nslots)))
     combos = [(c,) for c in choices]
     if two_refs:
         combos += [(c1, c2) for c1 in choices for c2 in choices if c1 <= c2]
+    # label sets: plain; with interior blanks, the two labels differing only by blank vs hyphen
+    labelsets = [('a', 'b', 'zz'), ('thm main', 'thm-main', 'thm main x'), ('eq:mass energy', 'b c', 'eq:mass-energy')]
+    depths = [None, 0, 1, 3, 5]
+    n = 0
     for k1 in kinds:
         for k2 in kinds:
+            n += 1
+            la, lb, lz = labelsets[n % 3]
+            names = [la, lb, lz]
             for combo in combos:
                 slots = [[] for _ in range(nslots)]
                 for uid, (l, s) in enumerate(combo):
-                    slots[s].append(['ref' if uid == 0 else 'pageref', l, uid])
-                ast = [['par', [['t', 's']] + slots[0]]] + obj(k1, 'a', slots[1]) + [['par', [['t', 'm']] + slots[2]]] + \
-                    obj(k2, 'b', slots[3]) + [['par', [['t', 'e']] + slots[4]]]
-                yield dict(kind='doc', flavour='small', docs=[ast])
+                    slots[s].append(['ref' if uid == 0 else 'pageref', names[l], uid])
+                ast = [['par', [['t', 's']] + slots[0]]] + obj(k1, la, slots[1]) + [['par', [['t', 'm']] + slots[2]]] + \
+                    obj(k2, lb, slots[3]) + [['par', [['t', 'e']] + slots[4]]]
+                yield dict(kind='doc', flavour='small', docs=[ast], depth=depths[n % 5])
 
 
 # ====================================================================================================
@@ -509,8 +530,8 @@ def rand_api(rng, n, nobj, nhold, nkeys, names, groups=False, dup=False):
 
 
 def enum_api(length):
-    alphabet = [['cur', 0], ['cur', 1], ['label', 'a', None], ['label', 'b', None], ['label', 'a', 1],
-                ['ref', 0, 0, 'a'], ['ref', 0, 0, 'b'], ['ref', 1, 0, 'a'], ['ref', 0, 1, 'a'], ['ref', 1, 0, 'b']]
+    alphabet = [['cur', 0], ['cur', 1], ['label', 'a b', None], ['label', 'a-b', None], ['label', 'a b', 1],
+                ['ref', 0, 0, 'a b'], ['ref', 0, 0, 'a-b'], ['ref', 1, 0, 'a b'], ['ref', 0, 1, 'a b'], ['ref', 1, 0, 'a-b']]
     for n in range(length + 1):
         for ops in itertools.product(alphabet, repeat=n):
             yield dict(kind='api', flavour='exhaustive', ops=[list(o) for o in ops])
@@ -528,25 +549,25 @@ def streams(rng, tier, boost):
     # (a) API histories
     for c in enum_api(4 if quick else 5):
         out.append(('api-exhaustive', c))
-    names = ['a', 'b', 'c', 'd', 'e', 'f', 'g', 'h']
-    for i in range((3000 if quick else 30000) * boost):
+    names = ['a', 'a b', 'a-b', 'c', 'c  d', 'c\td', 'c-d', 'h']
+    for i in range((1500 if quick else 30000) * boost):
         n = rng.choice([5, 10, 20, 40, 60])
         out.append(('api-random', dict(kind='api', flavour='random',
                                        ops=rand_api(rng, n, rng.randint(1, 5), rng.randint(1, 5), rng.randint(1, 3), names[:rng.randint(1, 8)]))))
-    for i in range((600 if quick else 6000) * boost):
+    for i in range((300 if quick else 6000) * boost):
         out.append(('api-groups', dict(kind='api', flavour='groups',
                                        ops=rand_api(rng, rng.choice([10, 20, 40]), rng.randint(1, 4), rng.randint(1, 4), 2, names[:5], groups=True))))
-    for i in range((600 if quick else 6000) * boost):
+    for i in range((300 if quick else 6000) * boost):
         out.append(('api-duplicate-labels', dict(kind='api', flavour='dup',
                                                  ops=rand_api(rng, rng.choice([10, 20, 40]), rng.randint(1, 4), rng.randint(1, 4), 2, names[:3], dup=True))))
     # (b) documents
     for c in small_docs(two_refs=not quick):
         out.append(('doc-exhaustive-small', c))
-    for i in range((1200 if quick else 12000) * boost):
+    for i in range((700 if quick else 12000) * boost):
         out.append(('doc-random+moved', gen_doc_case(rng, rng.choice([2, 3, 5, 8, 12]), 2)))
-    for i in range((200 if quick else 2000) * boost):
+    for i in range((120 if quick else 2000) * boost):
         out.append(('doc-duplicate-labels', gen_doc_case(rng, rng.choice([3, 5, 8]), 1, dup=True, flavour='dup')))
-    for i in range((200 if quick else 2000) * boost):
+    for i in range((120 if quick else 2000) * boost):
         out.append(('doc-after-nested', gen_doc_case(rng, rng.choice([2, 3, 5]), 1, ill=True, flavour='ill')))
     # a few cases of every stream first, so that the vm_compute cross-check of the extraction (first 300 cases) sees all of them
     seen = {}
@@ -569,7 +590,7 @@ def search_streams(rng, tier):
 def histories(case):
     if case['kind'] == 'api':
         return [case['ops']]
-    return [doc_events(d)[0] for d in case['docs']]
+    return [doc_events(d, case.get('depth'))[0] for d in case['docs']]
 
 
 def model_input(case):
@@ -587,7 +608,8 @@ def describe(case):
              'label': lambda o: 'label(%r%s)' % (o[1], '' if o[2] is None else ', n%d' % o[2]),
              'ref': lambda o: 'ref(h%d, k%d, %r)' % (o[1], o[2], o[3]), 'open': lambda o: 'push()', 'close': lambda o: 'pop()'}[o[0]](o)
             for o in case['ops'])
-    return '\n--- variant with the references moved ---\n'.join(render_doc(d) for d in case['docs'])
+    return ('' if case.get('depth') is None else '[document/sec-num-depth = %d]\n' % case['depth']) + \
+        '\n--- variant with the references moved ---\n'.join(render_doc(d) for d in case['docs'])
 
 
 # ====================================================================================================
@@ -666,13 +688,17 @@ def run_api(ops):
     return observe(ctx, objs, list(enumerate(holds)))
 
 
-OBJ_NAMES = ('section', 'subsection', 'equation', 'item', 'caption', 'thmenv', 'eqnarray')
+OBJ_NAMES = ('section', 'subsection', 'subsubsection', 'paragraph', 'subparagraph', 'equation', 'item', 'caption', 'thmenv', 'eqnarray')
 
 
-def run_doc(ast):
+def run_doc(ast, secnumdepth=None):
     import texrun
-    ev, nobj, uids, wild = doc_events(ast)
-    doc, tex = texrun.parse(render_doc(ast))
+    ev, nobj, uids, wild = doc_events(ast, secnumdepth)
+
+    def setup(doc, tex):
+        if secnumdepth is not None:
+            doc.config['document']['sec-num-depth'] = secnumdepth
+    doc, tex = texrun.parse(render_doc(ast), setup)
     objs = []
     refs = []
 
@@ -714,7 +740,7 @@ def run_impl(case):
         return [S(s.strip()) for s in case['strs']]
     if case['kind'] == 'api':
         return [run_api(case['ops'])]
-    return [run_doc(d) for d in case['docs']]
+    return [run_doc(d, case.get('depth')) for d in case['docs']]
 
 
 # ====================================================================================================
@@ -751,7 +777,7 @@ def wildcard(case, i, obs):
     """replace the printed numbers the generator does not predict (items of nested lists) by '*' on both sides"""
     if case['kind'] != 'doc':
         return obs
-    wild = set(doc_events(case['docs'][i])[3])
+    wild = set(doc_events(case['docs'][i], case.get('depth'))[3])
     if not wild:
         return obs
     obs = copy.deepcopy(obs)
